@@ -185,11 +185,18 @@ a multiple of the member type's alignment (`#pragma pack` / enclosing `packed` t
 field-alignment heuristic of `is_packed` does not detect because the record itself carries a
 larger `aligned(N)`): no `repr(C)` struct without `packed` can reproduce that -/
 def unpackedMisalignedMember (c : CAgg) (r : RustAgg) : Bool :=
-  r.packed.isNone && !r.isUnion && !c.isUnion && c.fields.any fun f => match f with
+  r.packed.isNone && !r.isUnion && !c.isUnion &&
+  ((c.fields.any fun f => match f with
     | .data ty (some off) => (match ty.layout with
         | some l => decide ((off / 8) % (max l.align 1) ≠ 0)
         | none => false)
-    | _ => false
+    | _ => false) ||
+   -- the same situation seen through a later member (the misaligned one is an anonymous member
+   -- whose offset libclang does not report): C placed a member before the place natural
+   -- alignment gives it
+   (!hasInexactPad r && match reprC r with
+    | some l => (cOffsets 0 c.fields).any fun (i, o) => l.userOffsets.any fun (j, ro) => i == j && decide (o < ro)
+    | none => false))
 
 /-- a bit-field allocation unit that the emitted aggregate places (alignment 1, right after the
 previous field) at another byte than the one libclang's bit offsets say it starts at: the
@@ -201,16 +208,27 @@ def unitMisplaced (c : CAgg) (r : RustAgg) : Bool :=
       | _ => false
   | none => false
 
-/-- a packed aggregate never gets padding fields, so it cannot reproduce a gap the C compiler left
-in front of a member (member-level `aligned(N)` inside a packed / `#pragma pack` record): some
-member is placed by `repr(C, packed(N))` before the offset libclang reports -/
+/-- a record the tracker treats as packed never gets padding fields, so the emitted aggregate
+cannot reproduce a gap the C compiler left in front of a member (member-level `aligned(N)` inside
+a packed / `#pragma pack` record): some member is placed before the offset libclang reports -/
 def packedGap (c : CAgg) (r : RustAgg) : Bool :=
-  r.packed.isSome && !r.isUnion &&
+  (r.packed.isSome || c.isPacked) && !r.isUnion &&
   match reprC r with
   | some l => (cOffsets 0 c.fields).any fun (i, o) => l.userOffsets.any fun (j, ro) => i == j && decide (ro < o)
   | none => false
 
+/-- a union that is smaller in Rust than in C although no unit is visibly short: a run of
+bit-fields whose last member is a zero-width bit-field is dropped altogether (the unit keeps the
+extent of the last bit-field: 0 bits, and empty units are not flushed); with only such bit-fields
+the union is considered zero-sized and gets a one-byte `_address` -/
+def unionBitfieldsDropped (c : CAgg) (r : RustAgg) : Bool :=
+  c.isUnion && !unionUnitShort c &&
+  match c.layout, reprC r with
+  | some l, some rl => decide (rl.size < l.size)
+  | _, _ => false
+
 def regionNames (c : CAgg) (r : RustAgg) : List String :=
+  (if unionBitfieldsDropped c r then ["union_bitfields_dropped"] else []) ++
   (if packedGap c r then ["packed_member_gap"] else []) ++
   (if unitMisplaced c r then ["bitfield_unit_misplaced"] else []) ++
   (if unpackedMisalignedMember c r then ["unpacked_misaligned_member"] else []) ++
@@ -337,5 +355,9 @@ def witnessAlign16 : CAgg :=
   { layout := some { size := 32, align := 16 },
     fields := [.data { layout := some { size := 8, align := 8 } } (some 0),
                .data { layout := some { size := 16, align := 16 } } (some 128)] }
+
+/-- `union R25 { int : 22; unsigned int : 0; };` (clang: size 3, align 1; the IR has no field) -/
+def witnessUnionDropped : CAgg :=
+  { isUnion := true, layout := some { size := 3, align := 1 }, zeroSized := true, fields := [] }
 
 end BindgenModel.CompCodegen
